@@ -1,4 +1,5 @@
 """C10 - unit conversions are mutually consistent and anchored (DESIGN.md §7 C10)."""
+import json
 import numpy as np
 from lib import wire
 from lib.wire import f2b, enc_str, Reader, close
@@ -46,6 +47,36 @@ def set_conv(st, inc_f=True, inc_p=True):
     c.set_nutrition_requirements(kcals_daily=st[0], fat_daily=st[1], protein_daily=st[2], include_fat=inc_f, include_protein=inc_p, population=st[3])
     Food.conversions = c
     return Food
+
+
+def anchors(ctx, st, case, Food=None):
+    """anchor identities, helpers and the three forms for the setting in force (a function of the current setting only)"""
+    if Food is None:
+        Food = set_conv(st)
+    cv = Food.conversions
+    need = Food(cv.billion_kcals_needed, cv.thou_tons_fat_needed, cv.thou_tons_protein_needed)
+    pf = need.in_units_percent_fed()
+    if not all(close(float(v), 100.0, 1e-9, 0) for v in (pf.kcals, pf.fat, pf.protein)):
+        ctx.violation("anchor-percent", "monthly requirement does not convert to 100 percent fed: %r" % ([pf.kcals, pf.fat, pf.protein],), case)
+    bf = need.in_units_billions_fed()
+    if not all(close(float(v), st[3] / 1e9, 1e-9, 0) for v in (bf.kcals, bf.fat, bf.protein)):
+        ctx.violation("anchor-billions", "monthly requirement does not convert to population/1e9 billions fed", case)
+    ke = need.in_units_kcals_equivalent()
+    if not all(close(float(v), st[0], 1e-9, 0) for v in (ke.kcals, ke.fat, ke.protein)):
+        ctx.violation("anchor-daily", "monthly requirement does not convert to the daily kcal requirement (kcals equivalent)", case)
+    kg = need.in_units_kcals_grams_grams_per_person()
+    if not (close(float(kg.kcals), st[0], 1e-9, 0) and close(float(kg.fat), st[1], 1e-9, 0) and close(float(kg.protein), st[2], 1e-9, 0)):
+        ctx.violation("anchor-grams", "monthly requirement does not convert to daily kcals/grams per person", case)
+    bk = pf.in_units_bil_kcals_thou_tons_thou_tons_per_month()
+    if not (close(float(bk.kcals), cv.billion_kcals_needed, 1e-9, 0) and close(float(bk.fat), cv.thou_tons_fat_needed, 1e-9, 0)):
+        ctx.violation("anchor-back", "100 percent does not convert back to the monthly requirement", case)
+    tabs = [need.get_kcal_multipliers(), need.get_fat_multipliers(), need.get_protein_multipliers()]
+    for t, bases in zip(tabs, (BASES_K, BASES_F, BASES_F)):
+        for b in bases:
+            vals = [t.get(b + s) for s in SFX]
+            if None in vals or not (close(vals[0], vals[1], 1e-12, 0) and close(vals[0], vals[2], 1e-12, 0)):
+                ctx.violation("forms-differ", "the three forms of %r carry different multipliers %r" % (b, vals), dict(case, unit=b))
+    ctx.case(("anchor", st, case.get("position", 0), json.dumps(case.get("history", []))), sample={"setting": st, "anchor": "requirement -> 100 percent fed"})
 
 
 def correspondence(ctx):
@@ -172,32 +203,38 @@ def correspondence(ctx):
                 break
     # 4. anchors and forms on the implementation, and the five helpers
     for st in sets[: ctx.budget(10, 100)]:
-        Food = set_conv(st)
-        cv = Food.conversions
-        need = Food(cv.billion_kcals_needed, cv.thou_tons_fat_needed, cv.thou_tons_protein_needed)
-        case = {"setting": st}
-        pf = need.in_units_percent_fed()
-        if not all(close(float(v), 100.0, 1e-9, 0) for v in (pf.kcals, pf.fat, pf.protein)):
-            ctx.violation("anchor-percent", "monthly requirement does not convert to 100 percent fed: %r" % ([pf.kcals, pf.fat, pf.protein],), case)
-        bf = need.in_units_billions_fed()
-        if not all(close(float(v), st[3] / 1e9, 1e-9, 0) for v in (bf.kcals, bf.fat, bf.protein)):
-            ctx.violation("anchor-billions", "monthly requirement does not convert to population/1e9 billions fed", case)
-        ke = need.in_units_kcals_equivalent()
-        if not all(close(float(v), st[0], 1e-9, 0) for v in (ke.kcals, ke.fat, ke.protein)):
-            ctx.violation("anchor-daily", "monthly requirement does not convert to the daily kcal requirement (kcals equivalent)", case)
-        kg = need.in_units_kcals_grams_grams_per_person()
-        if not (close(float(kg.kcals), st[0], 1e-9, 0) and close(float(kg.fat), st[1], 1e-9, 0) and close(float(kg.protein), st[2], 1e-9, 0)):
-            ctx.violation("anchor-grams", "monthly requirement does not convert to daily kcals/grams per person", case)
-        bk = pf.in_units_bil_kcals_thou_tons_thou_tons_per_month()
-        if not (close(float(bk.kcals), cv.billion_kcals_needed, 1e-9, 0) and close(float(bk.fat), cv.thou_tons_fat_needed, 1e-9, 0)):
-            ctx.violation("anchor-back", "100 percent does not convert back to the monthly requirement", case)
-        tabs = [need.get_kcal_multipliers(), need.get_fat_multipliers(), need.get_protein_multipliers()]
-        for t, bases in zip(tabs, (BASES_K, BASES_F, BASES_F)):
-            for b in bases:
-                vals = [t.get(b + s) for s in SFX]
-                if None in vals or not (close(vals[0], vals[1], 1e-12, 0) and close(vals[0], vals[2], 1e-12, 0)):
-                    ctx.violation("forms-differ", "the three forms of %r carry different multipliers %r" % (b, vals), dict(case, unit=b))
-        ctx.case(("anchor", st), sample={"setting": st, "anchor": "requirement -> 100 percent fed"})
+        anchors(ctx, st, {"setting": st})
+    # 5. histories in one process: settings that share some of (kcals, fat, protein, population) with the one before - every identity above is a
+    #    function of the setting in force, whatever was in force earlier (a table or a factor kept from an earlier setting shows here)
+    lines, meta = [], []
+    for h in range(ctx.budget(6, 60)):
+        base = list(settings(rng))
+        hist = [tuple(base)]
+        for _ in range(rng.randint(2, 5)):
+            nxt = list(hist[-1] if rng.random() < 0.7 else base)
+            for j in rng.sample(range(4), rng.choice([1, 1, 1, 2])):
+                nxt[j] = settings(rng)[j]
+            hist.append(tuple(nxt))
+        if rng.random() < 0.5:
+            hist.append(hist[0])
+        for pos, st in enumerate(hist):
+            Food = set_conv(st)
+            f = Food(1.0, 1.0, 1.0)
+            tabs = [f.get_kcal_multipliers(), f.get_fat_multipliers(), f.get_protein_multipliers()]
+            case = {"setting": st, "history": [list(x) for x in hist[:pos]], "position": pos}
+            anchors(ctx, st, case, Food=Food)
+            for t in range(3):
+                for u in live[t]:
+                    lines.append("units.mult %d %s %s" % (t, " ".join(f2b(x) for x in st), enc_str(u)))
+                    meta.append((case, t, u, float(tabs[t][u]) if u in tabs[t] else None))
+            ctx.count("history-settings")
+    for (case, t, u, iv), o in zip(meta, ctx.lean(lines) if lines else []):
+        rd = Reader(o)
+        mv = rd.float() if rd.tok() == "some" else None
+        if (mv is None) != (iv is None) or (mv is not None and not close(mv, iv, 1e-12, 0)):
+            ctx.violation("stale-multiplier", "after the settings %r the multiplier of %r under %r is %r; for that setting alone it is %r" % (
+                case["history"], u, case["setting"], iv, mv), dict(case, table=t, unit=u))
+
 
 
 def search(ctx):
